@@ -1,0 +1,11 @@
+//go:build verif
+
+// Contracts for the verification machinery in /verif (govc). Comment-only.
+
+package dsd
+
+// Load writes only into the object graph reachable from t; the input bytes are
+// left untouched (decoding targets do not alias the input).
+//@ func Load
+//@   modifies *
+//@   ensures elems(data) == old(elems(data))
